@@ -29,6 +29,7 @@ type Case struct {
 	AllFlips bool   // additionally change every byte of the blob in turn
 	Primer   hx.Hex // when set: the same parsed object is first verified against this (genuine signer) certificate
 	Orig     hx.Hex // the valid blob the case was derived from (set for derived blobs only)
+	Before   hx.Hex // when set: a blob (judged like any other) that is verified before Blob in the same process
 }
 
 func genCase(t *rapid.T) Case {
@@ -82,6 +83,14 @@ func genCase(t *rapid.T) Case {
 			if m, class := gen.MutateCMS(t, c.Blob, env); class != "" {
 				c.Blob, c.Class = m, c.Class+"+"+class
 			}
+		}
+	}
+	if gen.Chance(t, "split", 1, 6) {
+		// a pair: the valid signature with the first k octets of its content in place of the content, verified first (it
+		// is refused), then the same signature with the remaining octets. What the first verification consumed must not
+		// count towards the second
+		if p, sfx, _, ok := gen.SplitContent(blob, rapid.IntRange(0, 1<<16).Draw(t, "splitat")); ok {
+			c.Before, c.Blob, c.Class, c.Orig = p, sfx, "content_suffix_after_prefix_attempt", nil
 		}
 	}
 	switch rapid.IntRange(0, 5).Draw(t, "role") {
@@ -228,6 +237,11 @@ func checkCase(c Case) error {
 	if len(c.Primer) > 0 {
 		if primer, err = x509.ParseCertificate(c.Primer); err != nil {
 			return fmt.Errorf("bad case: primer: %v", err)
+		}
+	}
+	if len(c.Before) > 0 {
+		if _, err := checkOne(c.Before, cert, "content_prefix", primer); err != nil {
+			return fmt.Errorf("[seed %s, verifying certificate: %s, blob verified first] %w", c.Seed, c.Role, err)
 		}
 	}
 	matched, err := checkOne(c.Blob, cert, c.Class, primer)
